@@ -428,6 +428,24 @@ func runC06(r *vk.Run) {
 				return
 			}
 			c.Count("documents:json-paths", 1)
+			// two labels selecting the same value
+			{
+				pth := vk.Pick(rng, paths)
+				stage := "| json d0=" + quoteLogQL(pth.Text) + ", d1=" + quoteLogQL(pth.Text)
+				got, _, msg := c06Eval(c, line, stage, nil)
+				if msg == "" {
+					if m := checkExposed(got, "d0", pth.Val); m != "" {
+						msg = "path " + pth.Text + " (first of two labels): " + m
+					} else if m := checkExposed(got, "d1", pth.Val); m != "" {
+						msg = "path " + pth.Text + " (second of two labels): " + m
+					}
+				}
+				if msg != "" {
+					c.Fail("", stage+": "+msg, det(stage, got))
+					return
+				}
+				c.Count("documents:json-same-path-twice", 1)
+			}
 			// field list and path expressions in one stage
 			if len(idKeys) > 0 {
 				key := vk.Pick(rng, idKeys)
